@@ -42,6 +42,7 @@ type c15Case struct {
 	Keys        []string
 	BTolerates  bool     // new template tolerates the taint
 	BSelector   bool     // new template has nodeSelector tier=a
+	BExclude    bool     // new template has a required affinity term with BOTH an expression (zone exists) and a field requirement (metadata.name NotIn [n00]): n00 is not eligible
 	Prev        []string // previously selected names (may be stale / duplicated / nonexistent)
 	F13Excluded bool
 }
@@ -51,7 +52,7 @@ func (k c15Case) String() string {
 	for _, n := range k.Nodes {
 		ns = append(ns, fmt.Sprintf("%s{zone=%s rack=%s tier=%s tainted=%v restarts=%d twoPods=%v namesakeRestarts=%d}", n.Name, n.Zone, n.Rack, n.Tier, n.Tainted, n.Restarts, n.TwoPods, n.Foreign))
 	}
-	return fmt.Sprintf("replicas=%s selector=%v(form %d) keys=%v newTemplate{tolerates=%v selector=%v} prev=%v nodes=[%s]", k.Replicas, k.Selector, k.SelForm, k.Keys, k.BTolerates, k.BSelector, k.Prev, strings.Join(ns, " "))
+	return fmt.Sprintf("replicas=%s selector=%v(form %d) keys=%v newTemplate{tolerates=%v selector=%v excludesN00=%v} prev=%v nodes=[%s]", k.Replicas, k.Selector, k.SelForm, k.Keys, k.BTolerates, k.BSelector, k.BExclude, k.Prev, strings.Join(ns, " "))
 }
 
 func c15Template(k c15Case) corev1.PodTemplateSpec {
@@ -61,6 +62,12 @@ func c15Template(k c15Case) corev1.PodTemplateSpec {
 	}
 	if k.BSelector {
 		t.Spec.NodeSelector = map[string]string{"tier": "a"}
+	}
+	if k.BExclude {
+		t.Spec.Affinity = &corev1.Affinity{NodeAffinity: &corev1.NodeAffinity{RequiredDuringSchedulingIgnoredDuringExecution: &corev1.NodeSelector{NodeSelectorTerms: []corev1.NodeSelectorTerm{{
+			MatchExpressions: []corev1.NodeSelectorRequirement{{Key: "zone", Operator: corev1.NodeSelectorOpExists}},
+			MatchFields:      []corev1.NodeSelectorRequirement{{Key: "metadata.name", Operator: corev1.NodeSelectorOpNotIn, Values: []string{"n00"}}},
+		}}}}}
 	}
 	return t
 }
@@ -91,6 +98,7 @@ func c15Draw(rt *rapid.T) c15Case {
 	}
 	k.BTolerates = rapid.Bool().Draw(rt, "bTolerates")
 	k.BSelector = rapid.IntRange(0, 3).Draw(rt, "bSelector") == 0
+	k.BExclude = rapid.IntRange(0, 3).Draw(rt, "bExcludesN00") == 0
 	np := rapid.SampledFrom([]int{0, 0, 1, 2, 3}).Draw(rt, "nPrev")
 	// distinct names: the list is only ever written by the controller, which never lists a node twice
 	for _, i := range rapid.SliceOfNDistinct(rapid.IntRange(0, 11), np, np, func(i int) int { return i }).Draw(rt, "prev") {
